@@ -170,3 +170,11 @@ func compact(evs []sim.Ev) []string {
 }
 
 func fnvNew() hash.Hash64 { return fnv.New64a() }
+
+func readJSON(path string, v any) error {
+	b, err := os.ReadFile(path)
+	if err != nil {
+		return err
+	}
+	return json.Unmarshal(b, v)
+}
